@@ -5,6 +5,8 @@ package drpcconn
 
 import (
 	"context"
+	"errors"
+	"io"
 	"sync"
 
 	"github.com/zeebo/errs"
@@ -146,10 +148,13 @@ func (c *Conn) doInvoke(stream *drpcstream.Stream, enc drpc.Encoding, rpc string
 	if err := stream.RawWrite(drpcwire.KindInvoke, []byte(rpc)); err != nil {
 		return err
 	}
-	if err := stream.RawWrite(drpcwire.KindMessage, data); err != nil {
+	// once the remote side has ended the stream (for example because the rpc
+	// is unknown to it, which it reports as soon as it has the invoke), sends
+	// fail with io.EOF. what the stream ended with is what the receive reports.
+	if err := stream.RawWrite(drpcwire.KindMessage, data); err != nil && !errors.Is(err, io.EOF) {
 		return err
 	}
-	if err := stream.CloseSend(); err != nil {
+	if err := stream.CloseSend(); err != nil && !errors.Is(err, io.EOF) {
 		return err
 	}
 	if err := stream.MsgRecv(out, enc); err != nil {
